@@ -94,6 +94,8 @@ Definition failed_in (L : logs) (e : nat) : bool :=
 Inductive ev :=
 | Send (n cont : nat)   (* request with n payload bytes; the accessory's answer will have
                            1+cont fragments (BLE only) *)
+| SendW (n cont j : nat) (* BLE: like Send, but the GATT write of fragment j is refused (BleakError, link up or
+                           dropping); no such fragment = plain Send.  Not an event of the IP / CoAP machines *)
 | Next                  (* the accessory's next frame is delivered *)
 | Replay (i : nat)      (* the genuine frame with nonce i of the current key is delivered *)
 | ReplayOld (i : nat)   (* the genuine frame with nonce i of the previous key epoch *)
@@ -162,6 +164,7 @@ Definition ip_step (s : ip) (e : ev) : ip :=
       else
         mkIp (i_ep s) (i_c2a s + k) (i_a2c s) false (i_pend s ++ [i_nreq s]) (i_srv s) (S (i_nreq s))
              (add_wire xs (add_seal xs (i_log s)))
+  | SendW _ _ _ => s
   | Next => ip_deliver_at s (i_srv s)
   | Replay i => ip_deliver_at s i
   | ReplayOld i =>
@@ -202,7 +205,7 @@ Record ble := mkBle {
   b_ep : nat;
   b_sess : option (nat * nat);     (* client connected and keys installed: (enc ctr, dec ctr) *)
   b_infl : option (nat * nat);     (* request holding _ble_request_lock: (number, reads left) *)
-  b_wait : list (nat * nat * nat); (* waiting for the lock: (number, n, cont) *)
+  b_wait : list (nat * nat * nat * option nat); (* waiting for the lock: (number, n, cont, refused write) *)
   b_srv : nat;
   b_nreq : nat;
   b_log : logs
@@ -214,17 +217,26 @@ Definition ble_init := mkBle 0 (Some (0, 0)) None [] 0 0 nolog.
    _async_request_under_lock: not connected -> AccessoryDisconnectedError, nothing sealed;
    _write_pdu: seal every fragment, then write them all *)
 Fixpoint ble_drain (ep : nat) (sess : option (nat * nat)) (srv nreq : nat) (L : logs)
-         (w : list (nat * nat * nat)) : ble :=
+         (w : list (nat * nat * nat * option nat)) : ble :=
   match w with
   | [] => mkBle ep sess None [] srv nreq L
-  | (id, n, cont) :: r =>
+  | (id, n, cont, wf) :: r =>
       match sess with
       | None => ble_drain ep None srv nreq (add_out [(ep, id, RFail)] L) r
       | Some (enc, dec) =>
           let k := ble_frags n in
           let xs := nids (ep, C2A) enc k in
-          mkBle ep (Some (enc + k, dec)) (Some (id, S cont)) r srv nreq
-                (add_wire xs (add_seal xs L))
+          let refused := match wf with Some j => if Nat.ltb j k then Some j else None | None => None end in
+          match refused with
+          | Some j =>
+              (* every fragment is sealed, fragments 0..j-1 are written, write j raises:
+                 except BaseException -> _close_while_locked *)
+              ble_drain ep None srv nreq
+                        (add_out [(ep, id, RFail)] (add_wire (firstn j xs) (add_seal xs L))) r
+          | None =>
+              mkBle ep (Some (enc + k, dec)) (Some (id, S cont)) r srv nreq
+                    (add_wire xs (add_seal xs L))
+          end
       end
   end.
 
@@ -263,14 +275,17 @@ Definition ble_abort (s : ble) (c : rclass) : ble :=
       ble_drain (b_ep s) None (b_srv s) (b_nreq s) (add_out [(b_ep s, id, c)] (b_log s)) (b_wait s)
   end.
 
+Definition ble_send (s : ble) (n cont : nat) (wf : option nat) : ble :=
+  match b_infl s with
+  | Some _ => mkBle (b_ep s) (b_sess s) (b_infl s) (b_wait s ++ [(b_nreq s, n, cont, wf)])
+                    (b_srv s) (S (b_nreq s)) (b_log s)
+  | None => ble_drain (b_ep s) (b_sess s) (b_srv s) (S (b_nreq s)) (b_log s) [(b_nreq s, n, cont, wf)]
+  end.
+
 Definition ble_step (s : ble) (e : ev) : ble :=
   match e with
-  | Send n cont =>
-      match b_infl s with
-      | Some _ => mkBle (b_ep s) (b_sess s) (b_infl s) (b_wait s ++ [(b_nreq s, n, cont)])
-                        (b_srv s) (S (b_nreq s)) (b_log s)
-      | None => ble_drain (b_ep s) (b_sess s) (b_srv s) (S (b_nreq s)) (b_log s) [(b_nreq s, n, cont)]
-      end
+  | Send n cont => ble_send s n cont None
+  | SendW n cont j => ble_send s n cont (Some j)
   | Next => ble_deliver_at s (b_srv s)
   | Replay i => ble_deliver_at s i
   | ReplayOld i =>
@@ -415,6 +430,7 @@ Definition coap_step (s : coap) (e : ev) : coap :=
       | None => coap_drain (c_ep s) (c_send s) (c_recv s) (c_evt s) (c_alive s) (c_srv s) (c_esrv s)
                            (S (c_nreq s)) (c_log s) [c_nreq s]
       end
+  | SendW _ _ _ => s
   | Next => coap_response_at s (c_srv s)
   | Replay i => coap_response_at s i
   | ReplayOld i =>
